@@ -41,6 +41,9 @@ def gen_cases(r, tier, flavour):
     for n in ([1, 4, 16] if flavour == "asan" else [8]):                        # library lifetime: nested init/finalize, then scans whose mapped file is truncated
         cases.append("%s%d L %d %d" % (flavour[0], i, n, r.randrange(0, 1000)))
         i += 1
+    for k in range(2 if flavour == "asan" else 1):                              # foreign fault while another thread is held inside a protected scan (forked, time limit)
+        cases.append("%s%d F %d x" % (flavour[0], i, k))
+        i += 1
     for n in ([4, 16] if flavour == "asan" else [8]):                           # with one timing-out scan among the others (1.6 s each)
         cases.append("%s%d %d 2 %d" % (flavour[0], i, n, r.randrange(0, 1000) * 4 + 3))
         i += 1
@@ -87,7 +90,7 @@ def run(tier, replay=None):
     r = core.rng("C09")
     plan = [("asan", ba["h_conc"], gen_cases(r, tier, "asan"), {}),
             ("tsan", bt["h_conc"], gen_cases(r, tier, "tsan"), {"TSAN_OPTIONS": "halt_on_error=0:exitcode=66:second_deadlock_stack=1:report_signal_unsafe=1"})]
-    pcases = ["p%d P %d %s" % (k, k, "protect" if k % 2 == 0 else "noprotect") for k in range(4 if tier == "quick" else 40)]
+    pcases = ["p%d P %d %s" % (k, k, "protect" if k % 2 == 0 else "noprotect") for k in range(4 if tier == "quick" else 40)] + ["pf0 F 0 x"]
     plan += [("asan-m10", bm["h_conc"], pcases, {}),
              ("tsan-m10", btm["h_conc"], pcases[:2] if tier == "quick" else pcases[:10], {"TSAN_OPTIONS": "halt_on_error=0:exitcode=66:second_deadlock_stack=1:report_signal_unsafe=1"})]
     if replay:
@@ -112,6 +115,26 @@ def run(tier, replay=None):
                                                             "implementation": l, "model_spec": "library_alive_iff_referenced: the last yr_finalize finds the library alive and returns ERROR_SUCCESS"})
                     found = True
                 continue
+            if " F " in l[:len(cid) + 3]:
+                hist["%s:foreign-fault-during-scan" % fl] += 1
+                nscans += 1
+                nontrivial.add(byid.get(cid, cid).split(" ", 1)[1])
+                bad = []
+                if f.get("outcome") != "done":
+                    bad.append("a SIGBUS raised by the application while another thread was inside a protected scan did not reach the application's handler: the "
+                               "scenario process %s" % l.split(" F ", 1)[1])
+                else:
+                    if f.get("recovered") != "1":
+                        bad.append("old_handler forwarding: the application's SIGBUS handler was not invoked for a foreign fault (recovered=%s)" % f.get("recovered"))
+                    if f.get("yara_handler_installed_during_scan") != "1":
+                        bad.append("handler_installed_iff_count_pos: libyara's handler was not installed while a scan was inside YR_TRYCATCH")
+                    if f.get("after_installed") != "1":
+                        bad.append("old_handler_restored_at_zero: the application's handler was not back after the scan")
+                if bad:
+                    chk.violation("foreign_%s_%s.json" % (fl, cid), {"kind": "signal-handler-protocol", "engine": "conc", "harness": "h_conc", "flavour": fl, "case": byid.get(cid),
+                                                                     "implementation": l, "model_spec": "; ".join(bad)})
+                    found = True
+                continue
             if " P " in l[:len(cid) + 3]:
                 hist["%s:too-many-matches-parking" % fl] += 1
                 nscans += 4
@@ -125,6 +148,13 @@ def run(tier, replay=None):
                                "this thread's scan gave %s instead of %s (rc/callbacks/trace hash)" % (f.get("b_concurrent"), f.get("b_alone")))
                 if f.get("rules_hash") != "same":
                     bad.append("rules_immutable: the rule arena changed during scans")
+                if f.get("block_error_rc") not in ("TOO_MANY_MATCHES",):
+                    bad.append("a scan refused after too many matches returned %s" % f.get("block_error_rc"))
+                if f.get("handler_after_block_error_bad") != "0":
+                    bad.append("old_handler_restored_at_zero: after a scan that ended with an error in the block phase (too many matches, callback refused) the "
+                               "application's SIGBUS handler is not back (use count not returned to 0)")
+                if f.get("foreign_after") != "1":
+                    bad.append("a foreign SIGBUS after the scans did not reach the application's handler (foreign_after=%s)" % f.get("foreign_after"))
                 if bad:
                     chk.violation("parking_%s_%s.json" % (fl, cid), {"kind": "concurrent-scan-differs", "engine": "conc", "harness": "h_conc", "flavour": fl, "case": byid.get(cid),
                                                                      "implementation": l, "model_spec": "; ".join(bad)})
@@ -144,6 +174,8 @@ def run(tier, replay=None):
                                "instead of COULD_NOT_MAP_FILE as when run alone" % (f.get("fault_after"), f.get("first_other")))
                 if f.get("handler_outside_bad") != "0":
                     bad.append("old_handler_restored_at_zero: the application's SIGBUS handler was not in place afterwards")
+                if f.get("foreign_after", "1") != "1":
+                    bad.append("a foreign SIGBUS after the faulting scans did not reach the application's handler (foreign_after=%s)" % f.get("foreign_after"))
                 if bad:
                     chk.violation("lifetime_%s.json" % cid, {"kind": "library-lifetime", "engine": "conc", "harness": "h_conc", "flavour": fl, "case": byid.get(cid),
                                                              "implementation": l, "model_spec": "; ".join(bad)})
@@ -171,6 +203,8 @@ def run(tier, replay=None):
                 problems.append("handler_installed_iff_count_pos: %s scan(s) ran with the application's SIGBUS handler still installed" % f["handler_inside_bad"])
             if f.get("fd_bad", "0") != "0":
                 problems.append("a thread's own file descriptor was closed or replaced by yr_*_scan_fd (%s check(s) failed: fstat / size / close after the scan)" % f["fd_bad"])
+            if f.get("foreign_after", "1") != "1":
+                problems.append("a foreign SIGBUS after all scans returned did not reach the application's handler (foreign_after=%s)" % f.get("foreign_after"))
             if f["handler_outside_bad"] != "0":
                 problems.append("old_handler_restored_at_zero: the application's SIGBUS handler was not in place after all scans returned")
             if problems:
@@ -186,10 +220,12 @@ def run(tier, replay=None):
                 if not blk.startswith(("Direct", "Indirect")):
                     continue
                 fns = [f2 for f2, p2 in re.findall(r"#\d+ 0x[0-9a-f]+ in (\S+) (\S+)", blk) if "/libyara/" in p2 and f2 not in ("yr_malloc", "yr_calloc", "yr_realloc")]
-                ctx = "fault_scan" if " in fault_scan " in blk else "other"
-                allocs.append((fns[0] if fns else "-", ctx))
+                ctx = "fault_scan" if re.search(r" in fault_scan(_v)? ", blk) else "other"
+                allocs.append((fns[0] if fns else "-", ctx, "yr_execute_code" in fns))
             kl = [f for f in known if f["signature"].get("kind") == "memory-leak"]
-            unk = [a for a in allocs if not any(a[0] in f["signature"].get("functions", []) and a[1] == f["signature"].get("context") for f in kl)]
+            # listed: allocated by (or anywhere below) yr_execute_code in a scan that ended with a memory fault — siglongjmp skips every epilogue on the way
+            unk = [a for a in allocs if not any((a[0] in f["signature"].get("functions", []) or (f["signature"].get("below") == "yr_execute_code" and a[2]))
+                                                and a[1] == f["signature"].get("context") for f in kl)]
             hist["asan-leak-blocks"] = len(allocs)
             if allocs and not unk:
                 leak_known = True
